@@ -182,6 +182,21 @@ func jtLine(t *jtarget, v string, text string) string {
 	return "jt " + t.name + " " + v + " " + hx.Hex([]byte(text)) + " " + t.schema + " | " + doc
 }
 
+// canonJSON re-marshals a JSON text through the generic tree (object keys sorted), so that a text does not depend on the
+// iteration order of a Go map.
+func canonJSON(b []byte) string {
+	var tree any
+	if err := json.Unmarshal(b, &tree); err != nil {
+		return string(b)
+	}
+	out, err := json.Marshal(tree)
+	if err != nil {
+		return string(b)
+	}
+
+	return string(out)
+}
+
 // texts that are not an object, or not JSON at all
 var jtTexts = []string{
 	"null", " null ", "true", "false", "0", "1", "-1.5e3", "1e400", "\"x\"", "\"\"", "[]", "[1]", "[{}]", "[null]", "{}", " { } ", "{\"type\":1}",
@@ -214,7 +229,7 @@ func genJT(rng *hx.Rng, emit func(string, string)) {
 			if err != nil {
 				panic(err)
 			}
-			txt := string(b)
+			txt := canonJSON(b) // JSONEncode writes Go maps in iteration order: the request lines must not depend on it
 			emit(jtLine(t, fmt.Sprint(rng.Intn(2)), txt), "text:valid")
 			emit(jtLine(t, fmt.Sprint(rng.Intn(2)), txt[:rng.Intn(len(txt))]), "text:cut")
 			emit(jtLine(t, fmt.Sprint(rng.Intn(2)), "["+txt+"]"), "text:wrapped")
